@@ -62,9 +62,11 @@ theorem C07_py_clean_partial :
 example : TplFlowsPy.lang.rootsCleanFor [.absPath] .type = false := by decide +kernel
 
 /-- Source facts the sanitisers of the tables rely on (read off the Python source by the translator):
-`IncludeGenerator` sorts, the platform dictionary is reduced to the interpreter version when auditing is off. -/
+`IncludeGenerator` sorts, the platform dictionary is reduced to the interpreter version when auditing is off, the HTML
+natural sort breaks ties by the plain name (a non-injective key keeps the hash order of tied elements). -/
 theorem C07_sanitiser_conditions :
-    TplFlows.includeGeneratorSorts = true ∧ TplFlows.platformVersionAuditOffOnly = true := by decide
+    TplFlows.includeGeneratorSorts = true ∧ TplFlows.platformVersionAuditOffOnly = true ∧
+    TplFlows.naturalSortTotal = true := by decide
 
 /-! ### T3 and the other sanitisers -/
 
